@@ -195,6 +195,12 @@ class CanonicalEvolutionDesigner(vza.PartiallySerializableDesigner,
 
   def load(self, metadata: vz.Metadata):
     self._population = type(self._population).recover(metadata)
+    # The phase (initial sampling vs. evolution) depends on this counter.
+    self._num_trials_seen = int(
+        metadata.get('num_trials_seen', default='0', cls=str)
+    )
 
   def dump(self) -> vz.Metadata:
-    return self._population.dump()
+    metadata = self._population.dump()
+    metadata['num_trials_seen'] = str(self._num_trials_seen)
+    return metadata
